@@ -72,6 +72,10 @@ func updateGraph(dg *dot.Graph, err error) error {
 			// What is below is the constructor's own error.
 			break
 		}
+		if _, ok := err.(errDecoratorFailed); ok {
+			// What is below is the decorator's own error.
+			break
+		}
 		e := errors.Unwrap(err)
 		if e == nil {
 			break
@@ -181,6 +185,10 @@ func CanVisualizeError(err error) bool {
 		}
 		if _, ok := err.(errConstructorFailed); ok {
 			// What is below is the constructor's own error.
+			break
+		}
+		if _, ok := err.(errDecoratorFailed); ok {
+			// What is below is the decorator's own error.
 			break
 		}
 		e := errors.Unwrap(err)
